@@ -352,7 +352,8 @@ func drawChunking(t *rapid.T, s *core.Stats, stream []byte, kinds []string, ex e
 			continue
 		}
 		used[pos] = true
-		stalls = append(stalls, stall{Pos: pos, Kind: rapid.SampledFrom(kinds).Draw(t, "kind")})
+		stalls = append(stalls, stall{Pos: pos, Kind: rapid.SampledFrom(kinds).Draw(t, "kind"),
+			N: rapid.SampledFrom([]int{1, 1, 2, 2, 3, 5}).Draw(t, "stallrepeat")})
 	}
 	sort.Slice(stalls, func(i, j int) bool { return stalls[i].Pos < stalls[j].Pos })
 	maxN = rapid.SampledFrom([]int{1, 1, 2, 3, 7, 64}).Draw(t, "maxn")
@@ -528,9 +529,14 @@ func TestSlipEnumShort(t *testing.T) {
 			}
 		}
 		for pos := -1; pos <= len(stream); pos++ {
-			for _, kind := range []string{stallEOF, stallErr} {
+			// "eof2": the line stays idle for two consecutive polls
+			for _, kind0 := range []string{stallEOF, stallErr, "eof2"} {
+				kind, rep := kind0, 1
+				if kind0 == "eof2" {
+					kind, rep = stallEOF, 2
+				}
 				for _, ewl := range []bool{false, true} {
-					if pos < 0 && kind != stallEOF {
+					if pos < 0 && kind0 != stallEOF {
 						continue
 					}
 					if ewl && ex.eofWithLast || pos >= 0 && (ex.insideEscape && contains(st.insideEscape, pos) || ex.beforeEND && contains(st.beforeEND, pos)) {
@@ -540,7 +546,7 @@ func TestSlipEnumShort(t *testing.T) {
 					k := base
 					k.EOFWithLast = ewl
 					if pos >= 0 {
-						k.Stalls = []stall{{Pos: pos, Kind: kind}}
+						k.Stalls = []stall{{Pos: pos, Kind: kind, N: rep}}
 					}
 					evals++
 					if key, what := check(k); key != "" {
@@ -553,7 +559,7 @@ func TestSlipEnumShort(t *testing.T) {
 						nontriv++
 						if nontriv&63 == 1 {
 							k.Stream = hex.EncodeToString(stream)
-							s.Nontrivial(core.Hash64(k.Stream, pos, kind, ewl))
+							s.Nontrivial(core.Hash64(k.Stream, pos, kind, rep, ewl))
 							s.Sample(k)
 						}
 					}
